@@ -25,12 +25,11 @@ def run(ctx):
 
 
 def _mc(ctx):
-    uni = "C12InitQuick" if ctx.quick else "C12InitFull"
-    reqs = "C12ReqsA" if ctx.quick else "C12Reqs"
-    n = 2
-    r = ctx.tlc_mc("HttpRouter_MC", R.mc_cfg(uni, reqs, n, True, "Transparent", variant=R.REPAIRED),
-                   label="Transparent, repaired cache design, %s, %d requests + evictions" % (uni, n), timeout=1500)
-    ctx.log("Transparent holds for the repaired design: %d transitions" % r.generated)
+    runs = [("C12InitQuick", "C12ReqsA")] if ctx.quick else [("C12InitFull", "C12ReqsA"), ("C12InitQuick", "C12Reqs")]
+    for uni, reqs in runs:
+        r = ctx.tlc_mc("HttpRouter_MC", R.mc_cfg(uni, reqs, 2, True, "Transparent", variant=R.REPAIRED),
+                       label="Transparent, repaired cache design, %s x %s, 2 requests + evictions" % (uni, reqs), timeout=2400)
+        ctx.log("Transparent holds for the repaired design (%s x %s): %d transitions" % (uni, reqs, r.generated))
     # the cache as the pinned tree has it: TLC is expected to refute Transparent (a lead, confirmed or not by the replay below)
     r = ctx.tlc_mc("HttpRouter_MC", R.mc_cfg("C12InitQuick", "C12ReqsA", 2, True, "Transparent", variant=R.PINNED),
                    label="Transparent, cache design of the pinned tree", timeout=900, expect_ok=False, count=False)
